@@ -4,7 +4,8 @@ named in its meta.json (default: the property it breaks), reverts, and records t
 seeded/<id>/meta.json and seeded/README.md."""
 import json, os, subprocess, sys, time
 V = os.path.dirname(os.path.dirname(os.path.abspath(__file__)))
-ids = sys.argv[1:] or sorted(d for d in os.listdir(os.path.join(V, "seeded")) if os.path.isdir(os.path.join(V, "seeded", d)))
+PRIMARY = "--primary" in sys.argv      # run only the check of the property the change was written against
+ids = [a for a in sys.argv[1:] if not a.startswith("--")] or sorted(d for d in os.listdir(os.path.join(V, "seeded")) if os.path.isdir(os.path.join(V, "seeded", d)))
 rows = []
 for i in ids:
     d = os.path.join(V, "seeded", i)
@@ -13,13 +14,15 @@ for i in ids:
     subprocess.run(["git", "-C", "/repo", "apply", os.path.join(d, "patch.diff")], check=True)
     res = {}
     try:
-        for prop in meta.get("checks", [meta["property"]]):
+        for prop in ([meta["property"]] if PRIMARY else meta.get("checks", [meta["property"]])):
             t = time.time()
             p = subprocess.run([os.path.join(V, "bin/check"), prop], cwd=V, capture_output=True, text=True, timeout=3000)
             line = next((l for l in p.stdout.splitlines() if l.startswith("VIOLATION")), "")
             res[prop] = {"exit": p.returncode, "line": line, "wall_s": round(time.time() - t, 1)}
     finally:
         subprocess.run("git -C /repo checkout -- .", shell=True, check=True)
+    if PRIMARY:
+        res = dict(meta.get("check_results", {}), **res)
     meta["check_results"] = res
     json.dump(meta, open(os.path.join(d, "meta.json"), "w"), indent=1)
     rows.append((i, meta, res))
